@@ -387,6 +387,22 @@ def _perturbed(ds, seed):
     return dsp
 
 
+def _variants(ds, n):
+    """Inputs that are the same data to within what the property tolerates: n 1-ulp perturbations of the values, then the
+    same values in the two other memory layouts (C-ordered copy, F-ordered copy).  If the *in-memory* answer already
+    moves beyond the tolerance across these, a dask-vs-memory difference of that size says nothing about chunking or
+    scheduling (dask blocks are fresh C-ordered arrays; numpy reduces in memory order) - layout independence is C05."""
+    for k in range(n):
+        yield _perturbed(ds, k + 1)
+    a = ds["efth"].values
+    for order in ("C", "F"):
+        if (order == "C" and a.flags["C_CONTIGUOUS"]) or (order == "F" and a.flags["F_CONTIGUOUS"]) or a.ndim < 2:
+            continue
+        dsl = ds.copy(deep=True)
+        dsl["efth"] = ds["efth"].copy(data=np.array(a, order=order))
+        yield dsl
+
+
 def execute(arg):
     from simkit import build
 
@@ -466,8 +482,8 @@ def execute(arg):
     if d and cls != "exact" and d[0] in ("value", "nan-position"):
         # conditioning guard: does a 1-ulp perturbation of the input move the in-memory answer as much?
         try:
-            for k in range(6 if cls == "fit" else 2):
-                refp_c = cmp.canon(O.apply_op(_perturbed(ds, k + 1), op))
+            for dsv in _variants(ds, 6 if cls == "fit" else 2):
+                refp_c = cmp.canon(O.apply_op(dsv, op))
                 if cmp.compare(ref_c, refp_c, rtol=rtol, atol=atol):
                     sim.count("ill_conditioned_skipped")
                     d = None
@@ -511,8 +527,8 @@ def execute(arg):
                 dj = None
             if dj and cls != "exact" and dj[0] in ("value", "nan-position"):
                 try:
-                    for k in range(6 if cls == "fit" else 2):
-                        if cmp.compare(want, cmp.canon(O.apply_op(_perturbed(base, k + 1), op if which == "first" else (plan.get("pair_op") or op))), rtol=rtol, atol=atol):
+                    for dsv in _variants(base, 6 if cls == "fit" else 2):
+                        if cmp.compare(want, cmp.canon(O.apply_op(dsv, op if which == "first" else (plan.get("pair_op") or op))), rtol=rtol, atol=atol):
                             sim.count("ill_conditioned_skipped")
                             dj = None
                             break
